@@ -352,14 +352,38 @@ where
         let point_word = (point >> (State::BITS - Word::BITS)).as_();
         self.bulk.write(point_word)?;
 
-        let upper_word = (self.state.lower.wrapping_add(&self.state.range.get())
-            >> (State::BITS - Word::BITS))
-            .as_();
-        if upper_word == point_word {
+        for _ in 0..self.num_trailing_zero_seal_words(point) {
             self.bulk.write(Word::zero())?;
         }
 
         Ok(())
+    }
+
+    /// Returns the number of zero words that have to follow the most significant word of
+    /// `point` so that the emitted words pin down the current interval even if they get
+    /// concatenated with arbitrary further words (in particular with all-one words).
+    ///
+    /// For `State::BITS == 2 * Word::BITS` this is `1` if the most significant words of
+    /// `point` and of the (exclusive) upper end of the interval are equal, and zero otherwise.
+    fn num_trailing_zero_seal_words(&self, point: State) -> usize {
+        // The number that we've emitted so far (if followed by only zero bits), and its distance
+        // to the exclusive upper end of the interval. The emitted number lies within the
+        // interval, so `0 < distance <= range` (no wrapping).
+        let emitted = (point >> (State::BITS - Word::BITS)) << (State::BITS - Word::BITS);
+        let distance = self
+            .state
+            .lower
+            .wrapping_add(&self.state.range.get())
+            .wrapping_sub(&emitted);
+
+        // Any continuation of the words emitted so far stays below `emitted + (1 << shift)`.
+        let mut count = 0;
+        let mut shift = State::BITS - Word::BITS;
+        while shift != 0 && distance < (State::one() << shift) {
+            count += 1;
+            shift -= Word::BITS;
+        }
+        count
     }
 
     fn num_seal_words(&self) -> usize {
@@ -371,11 +395,7 @@ where
             .state
             .lower
             .wrapping_add(&((State::one() << (State::BITS - Word::BITS)) - State::one()));
-        let point_word = (point >> (State::BITS - Word::BITS)).as_();
-        let upper_word = (self.state.lower.wrapping_add(&self.state.range.get())
-            >> (State::BITS - Word::BITS))
-            .as_();
-        let mut count = if upper_word == point_word { 2 } else { 1 };
+        let mut count = 1 + self.num_trailing_zero_seal_words(point);
 
         if let EncoderSituation::Inverted(num_inverted, _) = self.situation {
             count += num_inverted.get();
